@@ -65,45 +65,125 @@ func extractC17(repo string, o *Out) {
 	o.nat("hashBits", uint64(bits), "width of the static type of `hash` in Consistent.hashKey")
 	o.str("fnvOrder", order, "order of the update steps in the loop of Consistent.hashKey (FNV-1a = xor-mul)")
 
-	// replica key format + loop shape of AddNode / RemoveNode
-	format := func(recv, name string) (string, *ast.FuncDecl) {
-		fd := p.Func(recv, name)
+	// replica key formats + loop shape of AddNode / RemoveNode. AddNode: one fmt.Sprintf(format, node, i); RemoveNode:
+	// one with `node` (the points it deletes) and at most one with `name` (the points it gives back to the
+	// remaining members); every index loop is `for i := 0; i < ReplicaCount; i++`.
+	formats := func(recv, name string) (byArg map[string]string, fd *ast.FuncDecl) {
+		byArg = map[string]string{}
+		fd = p.Func(recv, name)
 		if fd == nil {
 			o.problem("method %s.%s not found", recv, name)
-			return "?", nil
+			return
 		}
-		calls := p.Calls(fd, "fmt.Sprintf")
-		if len(calls) != 1 || len(calls[0].Args) != 3 || p.Src(calls[0].Args[1]) != "node" || p.Src(calls[0].Args[2]) != "i" {
-			o.problem("%s: expected exactly one fmt.Sprintf(format, node, i)", name)
-			return "?", fd
+		for _, c := range p.Calls(fd, "fmt.Sprintf") {
+			if len(c.Args) != 3 || p.Src(c.Args[2]) != "i" {
+				o.problem("%s: fmt.Sprintf call is not (format, <member>, i): %s", name, p.Src(c))
+				continue
+			}
+			arg := p.Src(c.Args[1])
+			if _, dup := byArg[arg]; dup {
+				o.problem("%s: more than one fmt.Sprintf(format, %s, i)", name, arg)
+			}
+			f := "?"
+			if v, ok := p.ConstOf(c.Args[0]); ok && v.Kind() == constant.String {
+				f = constant.StringVal(v)
+			} else if lit, ok := c.Args[0].(*ast.BasicLit); ok {
+				f, _ = strconv.Unquote(lit.Value)
+			} else {
+				o.problem("%s: replica format is not a constant string", name)
+			}
+			byArg[arg] = f
 		}
-		f := "?"
-		if v, ok := p.ConstOf(calls[0].Args[0]); ok && v.Kind() == constant.String {
-			f = constant.StringVal(v)
-		} else if lit, ok := calls[0].Args[0].(*ast.BasicLit); ok {
-			f, _ = strconv.Unquote(lit.Value)
-		} else {
-			o.problem("%s: replica format is not a constant string", name)
-		}
-		loops := 0
 		ast.Inspect(fd.Body, func(n ast.Node) bool {
 			if fs, ok := n.(*ast.ForStmt); ok {
-				loops++
 				if fs.Init == nil || p.Src(fs.Init) != "i := 0" || p.Src(fs.Cond) != "i < ReplicaCount" || p.Src(fs.Post) != "i++" {
 					o.problem("%s: replica loop is not `for i := 0; i < ReplicaCount; i++`", name)
 				}
 			}
 			return true
 		})
-		if loops != 1 {
-			o.problem("%s: expected exactly one loop", name)
-		}
-		return f, fd
+		return
 	}
-	fa, _ := format("Consistent", "AddNode")
-	fr, rm := format("Consistent", "RemoveNode")
-	o.str("replicaFormatAdd", fa, "format literal of fmt.Sprintf in Consistent.AddNode")
-	o.str("replicaFormatRemove", fr, "format literal of fmt.Sprintf in Consistent.RemoveNode")
+	get := func(m map[string]string, arg, where string, required bool) string {
+		if f, ok := m[arg]; ok {
+			return f
+		}
+		if required {
+			o.problem("%s: no fmt.Sprintf(format, %s, i)", where, arg)
+		}
+		return "?"
+	}
+	fa, _ := formats("Consistent", "AddNode")
+	if len(fa) != 1 {
+		o.problem("AddNode: expected exactly one fmt.Sprintf(format, node, i)")
+	}
+	fr, rm := formats("Consistent", "RemoveNode")
+	for arg := range fr {
+		if arg != "node" && arg != "name" {
+			o.problem("RemoveNode: unexpected fmt.Sprintf(format, %s, i)", arg)
+		}
+	}
+	o.str("replicaFormatAdd", get(fa, "node", "AddNode", true), "format literal of fmt.Sprintf in Consistent.AddNode")
+	o.str("replicaFormatRemove", get(fr, "node", "RemoveNode", true), "format literal of fmt.Sprintf(…, node, i) in Consistent.RemoveNode")
+
+	// RemoveNode gives points back: after `delete(c.nodes, node)`, the names of c.nodes are collected, sorted with
+	// sort.Strings, and for every name and replica `if _, found := c.circle[key]; !found { c.circle[key] = name }`.
+	restores := false
+	if rm != nil {
+		collect, sorted, put := 0, len(p.Calls(rm, "sort.Strings")), 0
+		ast.Inspect(rm.Body, func(n ast.Node) bool {
+			switch x := n.(type) {
+			case *ast.RangeStmt:
+				if p.Src(x.X) == "c.nodes" && x.Key != nil && p.Src(x.Key) == "name" && x.Value == nil {
+					if body := strings.ReplaceAll(p.Src(x.Body), " ", ""); strings.Contains(body, "names=append(names,name)") {
+						collect++
+					}
+				}
+				if p.Src(x.X) == "names" && x.Value != nil && p.Src(x.Value) == "name" {
+					ast.Inspect(x.Body, func(m ast.Node) bool {
+						if is, ok := m.(*ast.IfStmt); ok && is.Init != nil && is.Else == nil &&
+							strings.ReplaceAll(p.Src(is.Init), " ", "") == "_,found:=c.circle[key]" && strings.ReplaceAll(p.Src(is.Cond), " ", "") == "!found" &&
+							len(is.Body.List) == 1 && strings.ReplaceAll(p.Src(is.Body.List[0]), " ", "") == "c.circle[key]=name" {
+							put++
+						}
+						return true
+					})
+				}
+			}
+			return true
+		})
+		_, hasFmt := fr["name"]
+		switch {
+		case collect == 0 && sorted == 0 && put == 0 && !hasFmt:
+			restores = false
+		case collect == 1 && sorted == 1 && put == 1 && hasFmt:
+			restores = true
+			// the order of the statements: delete(c.nodes, node) < collect < sort < restore loop < updateSortedHash
+			var pos []string
+			for _, st := range rm.Body.List {
+				src := strings.ReplaceAll(p.Src(st), " ", "")
+				switch {
+				case src == "delete(c.nodes,node)":
+					pos = append(pos, "delnode")
+				case strings.HasPrefix(src, "forname:=rangec.nodes"):
+					pos = append(pos, "collect")
+				case src == "sort.Strings(names)":
+					pos = append(pos, "sort")
+				case strings.HasPrefix(src, "for_,name:=rangenames"):
+					pos = append(pos, "restore")
+				case src == "c.updateSortedHash()":
+					pos = append(pos, "update")
+				}
+			}
+			if strings.Join(pos, ",") != "delnode,collect,sort,restore,update" {
+				o.problem("RemoveNode: statement order is %s, expected delnode,collect,sort,restore,update", strings.Join(pos, ","))
+			}
+		default:
+			o.problem("RemoveNode: the give-back loop is not of the expected shape (collect %d, sort.Strings %d, guarded put %d, Sprintf with name %v)", collect, sorted, put, hasFmt)
+		}
+	}
+	o.bool("removeRestores", restores, "RemoveNode puts the replica points that the remaining members (sorted by name) lack back on the ring")
+	o.str("replicaFormatRestore", get(fr, "name", "RemoveNode", restores), "format literal of fmt.Sprintf(…, name, i) in Consistent.RemoveNode (the give-back loop)")
 
 	// RemoveNode: is `delete(c.circle, key)` inside `if c.circle[key] == node { ... }` ?
 	guarded := false
